@@ -198,6 +198,17 @@ func ruleLookup(c *Ctx, a *cacheAnchors, want map[string]bool) {
 					report("creation-time-kept", "the lookup overwrites createdAt ("+prettyTerm(e.Val)+") on "+where+": a request that already holds this entry's response computes its Age from the new value")
 				}
 			}
+			// the lookup reads the store at most (first lookup of an unknown entry): a write from here would put
+			// store latency and store failures on every memory hit, under the entry lock
+			for _, e := range pr.Events {
+				isWrite := e.Kind == "call" && e.Callee != nil && e.Callee == a.saveToStore
+				if e.Kind == "invoke" && e.Method != nil && (e.Method.Name() == "Set" || e.Method.Name() == "Delete") && strings.HasSuffix(e.Method.FullName(), "store.Store)."+e.Method.Name()) {
+					isWrite = true
+				}
+				if isWrite {
+					report("lookup-no-store-write", "the lookup writes to the persistent store on "+where+": a slow or failing store then delays or blocks requests that are answered from memory")
+				}
+			}
 			cls, ok := classify(f, S, a.fStatus.Type(), a.stUnknown, a.stFetching, a.stHFP, a.stHit)
 			seen["paths"]++
 			if !ok {
@@ -320,7 +331,7 @@ func ruleLookup(c *Ctx, a *cacheAnchors, want map[string]bool) {
 		}
 	}
 	rules := []string{"lookup-shape", "state-determined", "invariant-expiry", "no-exit-unknown", "fetching-only-from-unknown",
-		"load-only-when-unknown", "load-on-first-lookup", "invariant-waiters", "no-waiter-dropped", "registration", "returned-status", "hit-data", "expiry-applied", "expiry-exact", "creation-time-kept"}
+		"load-only-when-unknown", "load-on-first-lookup", "invariant-waiters", "no-waiter-dropped", "registration", "returned-status", "hit-data", "expiry-applied", "expiry-exact", "creation-time-kept", "lookup-no-store-write"}
 	if seen["registered"] == 0 || seen["became-fetcher"] == 0 || seen["hit"] == 0 {
 		c.undecided("lookup-transitions", name, pos, fmt.Sprintf("expected paths not found (registered=%d became-fetcher=%d hit=%d): idiom not recognised", seen["registered"], seen["became-fetcher"], seen["hit"]))
 		return
@@ -387,6 +398,7 @@ func ruleStoreLoadAtomic(c *Ctx, a *cacheAnchors) {
 	fields := []*types.Var{a.fStatus, a.fResponse, a.fCreatedAt, a.fExpiredAt, a.fChanList}
 	var hc *Term
 	n, adopted := 0, 0
+	hfpAdopted, hfpWithResp := 0, 0
 	bad := []string{}
 	strict := []string{}
 	created := []string{}
@@ -471,6 +483,21 @@ func ruleStoreLoadAtomic(c *Ctx, a *cacheAnchors) {
 		if k, v := pr.Facts.Decide(eqTerm(E, z)); !(k && !v) {
 			bad = append(bad, fmt.Sprintf("adopts a record whose expiry %s may be 0 (immortal entry) on path [%s]", prettyTerm(E), condString(pr.Conds)))
 		}
+		if cls == a.stHFP {
+			hfpAdopted++
+			if k, v := pr.Facts.Decide(eqTerm(R, nilTerm(a.fResponse.Type()))); !(k && v) && !R.IsNil() {
+				hfpWithResp++
+			}
+			// a marker is written with whatever response the entry held (HitForPass never clears it): present or not
+			for _, l := range pr.Conds {
+				if l.Atom.contains(func(x *Term) bool {
+					fv, ok := x.Obj.(*types.Var)
+					return ok && fv == a.fResponse && (x.Op == "fa" || x.Op == "fld") && len(x.Args) > 0 && x.Args[0].Op == "alloc"
+				}) {
+					strict = append(strict, fmt.Sprintf("the loader makes adoption of a hit-for-pass marker depend on the decoded record's response (%s): the completion writes markers both with and without one (an entry that was cacheable before keeps its old response), so valid markers would be thrown away on reload", l.String()))
+				}
+			}
+		}
 		if cls == a.stHit {
 			C := s.finalCell(pr.State, hc, a.fCreatedAt)
 			if !decodedCreated[C.Key()] {
@@ -488,6 +515,9 @@ func ruleStoreLoadAtomic(c *Ctx, a *cacheAnchors) {
 	if adopted == 0 {
 		c.undecided("load-atomic", name, pos, "no path adopts a record: loader idiom not recognised")
 		return
+	}
+	if hfpAdopted > 0 && hfpWithResp == 0 {
+		strict = append(strict, "no path adopts a hit-for-pass marker that carries a response: the completion writes such markers (an entry that was cacheable before keeps its old response when it turns hit-for-pass), and they would be thrown away on reload, so the key is probed and queued again inside its period")
 	}
 	c.check(len(created) == 0, "loader-restores-age", name, pos, "every adopted hit takes createdAt from the decoded record", strings.Join(uniq(created), " || "), adopted)
 	c.check(len(strict) == 0, "loader-accepts-saved", name, pos, "adopting paths test only status, expiry and (for a hit) the response: every record a completion writes is accepted", strings.Join(uniq(strict), " || "), adopted)
@@ -595,6 +625,25 @@ func ruleLockedWrapper(c *Ctx, a *cacheAnchors) {
 	if waits == 0 {
 		c.undecided("locked-lookup", name, pos, "no path waits on a channel: wrapper idiom not recognised")
 		return
+	}
+	// the lookup step is a transition, not a peek: it is reached only through this wrapper, which waits on the
+	// channel it hands out and whose caller completes the fetch it starts
+	if !onlyReachedFrom(c.P, a.get, fn, map[*ssa.Function]bool{}) {
+		for _, g := range c.P.allFuncs {
+			if g == fn || onlyReachedFrom(c.P, g, fn, map[*ssa.Function]bool{}) && g != a.get {
+				continue
+			}
+			for _, b := range g.Blocks {
+				for _, in := range b.Instrs {
+					if ci, ok := in.(ssa.CallInstruction); ok && ci.Common().StaticCallee() == a.get {
+						add(fmt.Sprintf("%s: %s calls the lookup step directly: becoming the fetcher or registering as a waiter are side effects it throws away (the key stays fetching with no fetcher; a completion blocks on a channel nobody reads)", c.P.pos(in.Pos()), funcName(g)))
+					}
+				}
+			}
+		}
+		if len(bad) == 0 {
+			add("the lookup step is reachable from outside the locked wrapper")
+		}
 	}
 	if len(bad) > 0 {
 		c.bad("locked-lookup", name, pos, strings.Join(bad, " || "), n)
